@@ -32,7 +32,10 @@
 
 using namespace llvm;
 
-static z3::context Z;
+// one z3 context per path: AST numbering (and with it term simplification) is then a function of the path alone, which makes
+// re-execution from a decision prefix reproducible in any worker process
+static z3::context *g_ctx = new z3::context;
+#define Z (*g_ctx)
 static const DataLayout *DL;
 
 static std::string demangle(const std::string &n)
@@ -244,8 +247,10 @@ struct Engine {
     std::set<std::string> hooksUsed;
     std::vector<Frame> stack;
     // path state
-    struct Dec { bool b; std::string val; };
+    struct Dec { bool b; std::string val; uint32_t site = 0; bool forced = false; };
     std::vector<Dec> prefix, decisions;
+    bool checkedReplay = false; // fallback after a replay divergence: every logged decision is validated by the solver
+    uint64_t replayFallbacks = 0;
     std::deque<std::vector<Dec>> work;
     z3::solver *S = nullptr;
     std::vector<z3::expr> pc;
@@ -672,7 +677,7 @@ struct Engine {
     {
         if (!mdl) {
             if (checkWith(nullptr, true) != z3::sat)
-                throw PathEnd{"infeasible", ""};
+                throw PathEnd{(decisions.size() < prefix.size() && !checkedReplay) ? "inconclusive" : "infeasible", std::string(decisions.size() < prefix.size() ? "replay divergence: " : "") + "path condition unsatisfiable in " + (stack.empty() ? std::string("?") : demangle(stack.back().f->getName().str()).substr(0, 80)) + " after " + std::to_string(decisions.size()) + "/" + std::to_string(prefix.size()) + " decisions"};
         }
     }
     bool modelSays(const z3::expr &c)
@@ -697,48 +702,155 @@ struct Engine {
                 mdl.reset();
         }
     }
-    // decide a symbolic condition; returns chosen truth value
-    bool decide(const z3::expr &cond)
+    // identifies the program point of a decision (same module image in every forked worker)
+    uint32_t curSite(char kind)
     {
-        size_t i = decisions.size();
-        bool take;
-        if (i < prefix.size()) {
-            take = prefix[i].b;
-        } else {
-            bool side = modelSays(cond); // this side is feasible (witnessed by the model)
-            z3::expr other = side ? !cond : cond;
-            std::unique_ptr<z3::model> keep = std::move(mdl);
-            bool fo = checkWith(&other, false) == z3::sat;
-            mdl = std::move(keep);
-            if (fo) {
-                st.forks++;
-                std::vector<Dec> o = decisions;
-                o.push_back(Dec{!side, ""});
-                work.push_back(o);
+        if (stack.empty())
+            return (uint32_t)kind;
+        const Instruction *I = &*stack.back().pc;
+        return (uint32_t)((uintptr_t)I >> 3) * 2654435761u + (uint32_t)kind;
+    }
+    // Replay support.  The log contains every decision (also forced ones, flagged).  Term simplification is not perfectly
+    // reproducible across worker processes, so a re-execution can meet a condition the original run had folded away (or the
+    // other way round).  Entries carry their program point: a mismatch is resynchronised when the extra decision is forced on
+    // either side, anything else ends the path as inconclusive ("replay divergence"), never silently.
+    bool nextLogged(uint32_t site, const z3::expr *cond, Dec &out)
+    {
+        while (decisions.size() < prefix.size()) {
+            const Dec &d = prefix[decisions.size()];
+            if (d.site == site) {
+                out = d;
+                return true;
             }
-            take = side;
+            if (d.forced) { // the original run decided something here that this run folded away
+                decisions.push_back(d);
+                continue;
+            }
+            if (cond) { // this run meets a condition the original run folded away: it must be forced
+                bool t = checkWith(cond, false) == z3::sat;
+                z3::expr nc = !*cond;
+                bool f = checkWith(&nc, false) == z3::sat;
+                if (t != f) {
+                    out = Dec{t, "", site, true};
+                    out.val = "\x01"; // marker: synthesized, do not consume
+                    return true;
+                }
+            }
+            std::string where = stack.empty() ? "?" : demangle(stack.back().f->getName().str()).substr(0, 70);
+            char sb[64];
+            snprintf(sb, sizeof sb, " site %x log %x@%zu/%zu%s", site, d.site, decisions.size(), prefix.size(), cond ? " branch" : " conc");
+            if (checkedReplay) { // give up on the rest of the log: explore everything below this point afresh (sound, may repeat work)
+                prefix.resize(decisions.size());
+                replayFallbacks++;
+                return false;
+            }
+            throw PathEnd{"inconclusive", "replay divergence in " + where + sb};
         }
-        decisions.push_back(Dec{take, ""});
+        return false;
+    }
+    void prefixDone()
+    {
+        // the replayed prefix was feasible when it was created: if it is not now, the replay went astray
+        if (prefix.empty() || decisions.size() != prefix.size())
+            return;
+        mdl.reset();
+        if (checkWith(nullptr, true) != z3::sat)
+            throw PathEnd{checkedReplay ? "infeasible" : "inconclusive", "replay divergence (prefix infeasible)"};
+    }
+    // decide a symbolic condition; returns chosen truth value
+    bool decide(const z3::expr &cond, uint32_t tag = 0)
+    {
+        uint32_t site = curSite('b') + tag * 7919u;
+        bool take, forced = false;
+        Dec lg;
+        bool haveLog = nextLogged(site, &cond, lg);
+        if (haveLog && checkedReplay && lg.val != "\x01") {
+            z3::expr chosen = lg.b ? cond : !cond;
+            if (checkWith(&chosen, false) != z3::sat) {
+                prefix.resize(decisions.size());
+                replayFallbacks++;
+                haveLog = false;
+            }
+        }
+        if (haveLog) {
+            take = lg.b;
+            forced = lg.forced;
+            if (lg.val == "\x01") { // synthesized forced decision: not part of the log
+                addPC(take ? cond : !cond);
+                return take;
+            }
+            decisions.push_back(Dec{take, "", site, forced});
+            addPC(take ? cond : !cond);
+            prefixDone();
+            return take;
+        }
+        bool side = modelSays(cond); // this side is feasible (witnessed by the model)
+        z3::expr other = side ? !cond : cond;
+        std::unique_ptr<z3::model> keep = std::move(mdl);
+        bool fo = checkWith(&other, false) == z3::sat;
+        mdl = std::move(keep);
+        if (fo) {
+            st.forks++;
+            std::vector<Dec> o = decisions;
+            o.push_back(Dec{!side, "", site, false});
+            work.push_back(o);
+        }
+        take = side;
+        decisions.push_back(Dec{take, "", site, !fo});
         addPC(take ? cond : !cond);
         return take;
     }
     // replay-safe concretisation: the decision log stores the candidate value, so that a
     // re-execution tests the same value even if the solver's model differs.
     uint64_t concCap = 256;
-    std::string concretizeExpr(const z3::expr &e, const char *what, uint64_t cap = 0)
+    std::string concretizeExpr(const z3::expr &e, const char *what, uint64_t cap = 0, uint32_t tag = 0)
     {
         if (!cap)
             cap = concCap;
+        uint32_t site = curSite('c') + tag * 7919u;
+        // replay resynchronisation: a concretisation the original run did not need (it had folded the term to a constant)
+        if (decisions.size() < prefix.size() && prefix[decisions.size()].site != site) {
+            ensureModel();
+            z3::expr mv = mdl->eval(e, true);
+            if (mv.is_numeral()) {
+                z3::expr other = (e != mv);
+                std::unique_ptr<z3::model> keep = std::move(mdl);
+                bool fo = checkWith(&other, false) == z3::sat;
+                mdl = std::move(keep);
+                if (!fo) {
+                    addPC(e == mv);
+                    return mv.get_decimal_string(0);
+                }
+            }
+        }
         for (uint64_t n = 0; n < cap; n++) {
-            size_t i = decisions.size();
             std::string cand;
-            bool take;
-            if (i < prefix.size()) {
-                cand = prefix[i].val;
-                take = prefix[i].b;
+            bool take, forced = false, logged = false;
+            Dec lg;
+            bool haveLog = nextLogged(site, nullptr, lg);
+            if (haveLog && checkedReplay) {
+                bool okc = !lg.val.empty() && (isdigit((unsigned char)lg.val[0]) || lg.val[0] == '-');
+                if (okc) {
+                    z3::expr cv0 = e.get_sort().is_bv() ? Z.bv_val(lg.val.c_str(), e.get_sort().bv_size()) : Z.int_val(lg.val.c_str());
+                    z3::expr chosen = lg.b ? (e == cv0) : (e != cv0);
+                    okc = checkWith(&chosen, false) == z3::sat;
+                }
+                if (!okc) {
+                    prefix.resize(decisions.size());
+                    replayFallbacks++;
+                    haveLog = false;
+                }
+            }
+            if (haveLog) {
+                cand = lg.val;
+                take = lg.b;
+                forced = lg.forced;
+                logged = true;
             } else {
                 ensureModel();
                 z3::expr mv = mdl->eval(e, true);
+                if (!mv.is_numeral())
+                    throw PathEnd{"inconclusive", "model value of a concretised term is not a numeral: " + mv.to_string().substr(0, 80)};
                 cand = mv.get_decimal_string(0);
                 take = true;
                 z3::expr cv = e.get_sort().is_bv() ? Z.bv_val(cand.c_str(), e.get_sort().bv_size()) : Z.int_val(cand.c_str());
@@ -746,16 +858,21 @@ struct Engine {
                 std::unique_ptr<z3::model> keep = std::move(mdl);
                 bool fo = checkWith(&other, false) == z3::sat;
                 mdl = std::move(keep);
+                forced = !fo;
                 if (fo) {
                     st.forks++;
                     std::vector<Dec> o = decisions;
-                    o.push_back(Dec{false, cand});
+                    o.push_back(Dec{false, cand, site, false});
                     work.push_back(o);
                 }
             }
+            if (cand.empty() || !(isdigit((unsigned char)cand[0]) || cand[0] == '-'))
+                throw PathEnd{"inconclusive", "replay divergence (concretisation entry expected)"};
             z3::expr cv = e.get_sort().is_bv() ? Z.bv_val(cand.c_str(), e.get_sort().bv_size()) : Z.int_val(cand.c_str());
-            decisions.push_back(Dec{take, cand});
+            decisions.push_back(Dec{take, cand, site, forced});
             addPC(take ? (e == cv) : (e != cv));
+            if (logged)
+                prefixDone();
             if (take) {
                 if (e.is_const() && !e.is_numeral()) {
                     if (!subF) { subF.reset(new z3::expr_vector(Z)); subT.reset(new z3::expr_vector(Z)); }
@@ -802,6 +919,17 @@ struct Engine {
         if (!knownCtx.empty()) {
             knownHit.push_back(knownCtx);
             return;
+        }
+        // a violation only counts on a feasible path: re-check the path condition (also yields the counterexample)
+        {
+            mdl.reset();
+            z3::check_result cr = z3::unknown;
+            try {
+                cr = checkWith(nullptr, true);
+            } catch (PathEnd &) {
+            }
+            if (cr == z3::unsat)
+                throw PathEnd{"infeasible", "violation on an infeasible path ignored: " + msg};
         }
         Viol v;
         v.msg = msg;
@@ -2219,10 +2347,15 @@ static std::string jstr(const std::string &s)
 static std::string encPrefix(const std::vector<Engine::Dec> &d)
 {
     std::string s;
+    char buf[32];
     for (auto &x : d) {
         if (!s.empty())
             s += ',';
         s += x.b ? '1' : '0';
+        if (x.forced)
+            s += 'f';
+        snprintf(buf, sizeof buf, "@%x", x.site);
+        s += buf;
         if (!x.val.empty()) {
             s += '=';
             s += x.val;
@@ -2239,9 +2372,20 @@ static std::vector<Engine::Dec> decPrefix(const std::string &s)
         if (j == std::string::npos)
             j = s.size();
         std::string t = s.substr(i, j - i);
-        Engine::Dec x{t[0] == '1', ""};
-        if (t.size() > 2 && t[1] == '=')
-            x.val = t.substr(2);
+        Engine::Dec x;
+        x.b = t[0] == '1';
+        size_t k = 1;
+        if (k < t.size() && t[k] == 'f') {
+            x.forced = true;
+            k++;
+        }
+        if (k < t.size() && t[k] == '@') {
+            size_t e = t.find('=', k);
+            x.site = (uint32_t)strtoul(t.substr(k + 1, e == std::string::npos ? std::string::npos : e - k - 1).c_str(), nullptr, 16);
+            k = e == std::string::npos ? t.size() : e;
+        }
+        if (k < t.size() && t[k] == '=')
+            x.val = t.substr(k + 1);
         d.push_back(x);
         i = j + 1;
     }
@@ -2304,13 +2448,24 @@ static std::string leakCheck(Engine &E, uint64_t heapStart)
 }
 
 // run one path; returns a JSON object describing it; new work items are appended to E.work
-static std::string runPath(Engine &E, const RunCfg &rc, const std::vector<Engine::Dec> &prefix, bool wantModel)
+static std::string runPath(Engine &E, const RunCfg &rc, const std::vector<Engine::Dec> &prefix, bool wantModel, bool checked = false)
 {
     E.prefix = prefix;
+    E.checkedReplay = checked;
     E.decisions.clear();
     E.pc.clear();
     E.inputs.clear();
     E.observations.clear();
+    E.stack.clear();
+    E.objs.clear();
+    E.mdl.reset();
+    E.subF.reset();
+    E.subT.reset();
+    E.resetPath();
+    E.ufs.clear();
+    E.work.clear();
+    delete g_ctx;
+    g_ctx = new z3::context;
     E.objs = E.snapshot;
     E.nextGlobal = rc.sG;
     E.nextStack = rc.sS;
@@ -2346,6 +2501,8 @@ static std::string runPath(Engine &E, const RunCfg &rc, const std::vector<Engine
         end = p;
     } catch (z3::exception &ex) {
         end = PathEnd{"inconclusive", std::string("z3: ") + ex.msg()};
+    } catch (std::exception &ex) {
+        end = PathEnd{"inconclusive", std::string("engine exception: ") + ex.what()};
     }
     try {
         if (end.kind == "violation") {
@@ -2365,7 +2522,7 @@ static std::string runPath(Engine &E, const RunCfg &rc, const std::vector<Engine
     else if (kind == "ok" && !E.knownHit.empty())
         kind = "known";
     js << "{\"kind\":" << jstr(kind) << ",\"msg\":" << jstr(end.msg) << ",\"decisions\":" << E.decisions.size() << ",\"instrs\":" << E.pathInstr
-       << ",\"queries\":" << (E.st.queries - q0) << ",\"solver_s\":" << (E.st.solver_s - s0) << ",\"prefix\":" << jstr(encPrefix(E.decisions));
+       << ",\"queries\":" << (E.st.queries - q0) << ",\"solver_s\":" << (E.st.solver_s - s0) << ",\"prefix\":" << jstr(encPrefix(E.decisions)) << ",\"diverged\":" << ((end.kind == "inconclusive" && end.msg.find("replay divergence") != std::string::npos && !checked) ? "true" : "false");
     js << ",\"violations\":[";
     for (size_t i = 0; i < E.violations.size(); i++) {
         auto &v = E.violations[i];
@@ -2420,6 +2577,8 @@ static std::string runPath(Engine &E, const RunCfg &rc, const std::vector<Engine
     E.observations.clear();
     E.pc.clear();
     E.resetPath();
+    E.ufs.clear();
+    E.stack.clear();
     E.objs.clear();
     E.S = nullptr;
     return js.str();
@@ -2430,7 +2589,7 @@ static std::string statsJson(Engine &E)
     std::ostringstream js;
     js << "{\"instrs\":" << E.st.instrs << ",\"paths\":" << E.st.paths << ",\"queries\":" << E.st.queries << ",\"forks\":" << E.st.forks
        << ",\"slow\":" << E.st.slowQueries << ",\"asserts\":" << E.st.asserts << ",\"simp_proved\":" << E.st.simpProved << ",\"sat\":" << E.st.sat << ",\"unsat\":" << E.st.unsat
-       << ",\"solver_s\":" << E.st.solver_s << ",\"funcs\":[";
+       << ",\"solver_s\":" << E.st.solver_s << ",\"replay_fallbacks\":" << E.replayFallbacks << ",\"funcs\":[";
     bool first = true;
     for (auto &f : E.st.funcs) {
         js << (first ? "" : ",") << jstr(f);
@@ -2487,9 +2646,15 @@ static void workerLoop(Engine &E, const RunCfg &rc, int in, int out)
             break;
         // "P <wantModel> <prefix>"
         bool wm = line.size() > 2 && line[2] == '1';
+        bool checked = line.size() > 2 && line[2] == 'C';
         std::string pfx = line.size() > 4 ? line.substr(4) : "";
         E.work.clear();
-        std::string res = runPath(E, rc, decPrefix(pfx), wm);
+        std::string res = runPath(E, rc, decPrefix(pfx), wm, checked);
+        if (res.find("\"diverged\":true") != std::string::npos) {
+            // replay went astray: run the same prefix again with solver-validated replay (falls back to fresh exploration)
+            E.work.clear();
+            res = runPath(E, rc, decPrefix(pfx), wm, true);
+        }
         std::string msg;
         for (auto &w : E.work)
             msg += "F " + encPrefix(w) + "\n";
@@ -2570,6 +2735,7 @@ int main(int argc, char **argv)
     DL = &M->getDataLayout();
     E.M = M.get();
     registerNatives(E);
+    {
     z3::solver S0(Z);
     E.S = &S0;
     try {
@@ -2586,6 +2752,7 @@ int main(int argc, char **argv)
         return 2;
     }
     E.S = nullptr;
+    }
     auto t1 = std::chrono::steady_clock::now();
     E.snapshot = E.objs;
     RunCfg rc;
@@ -2620,7 +2787,12 @@ int main(int argc, char **argv)
             std::string p = queue.back();
             queue.pop_back();
             E.work.clear();
-            results.push_back(runPath(E, rc, decPrefix(p), dispatched < sampleModels || dispatched % 16 == 0));
+            std::string rs = runPath(E, rc, decPrefix(p), dispatched < sampleModels || dispatched % 16 == 0);
+            if (rs.find("\"diverged\":true") != std::string::npos) {
+                E.work.clear();
+                rs = runPath(E, rc, decPrefix(p), false, true);
+            }
+            results.push_back(rs);
             dispatched++;
             done++;
             for (auto &w : E.work)
@@ -2629,7 +2801,7 @@ int main(int argc, char **argv)
         workerStats.push_back(statsJson(E));
     } else {
         signal(SIGPIPE, SIG_IGN);
-        struct W { pid_t pid; int in, out; bool busy = false, dead = false; std::string buf; };
+        struct W { pid_t pid; int in, out; bool busy = false, dead = false; std::string buf, cur; };
         std::vector<W> ws;
         for (int i = 0; i < jobs; i++) {
             int p2c[2], c2p[2];
@@ -2670,6 +2842,7 @@ int main(int argc, char **argv)
                         bool wm = dispatched < sampleModels || dispatched % 16 == 0;
                         writeAll(w.out, std::string("P ") + (wm ? "1" : "0") + " " + p + "\n");
                         w.busy = true;
+                        w.cur = p;
                         dispatched++;
                     }
             if (nbusy() == 0)
@@ -2707,7 +2880,7 @@ int main(int argc, char **argv)
                     // worker died (engine crash): the path it was running is inconclusive
                     w.dead = true;
                     w.busy = false;
-                    results.push_back("{\"kind\":\"inconclusive\",\"msg\":\"engine worker crashed\",\"decisions\":0,\"instrs\":0,\"queries\":0,\"solver_s\":0,\"prefix\":\"\",\"violations\":[],\"known\":[],\"notes\":[]}");
+                    results.push_back("{\"kind\":\"inconclusive\",\"msg\":\"engine worker crashed\",\"decisions\":0,\"instrs\":0,\"queries\":0,\"solver_s\":0,\"prefix\":" + jstr(w.cur) + ",\"violations\":[],\"known\":[],\"notes\":[]}");
                     done++;
                     continue;
                 }
